@@ -215,6 +215,27 @@ func (p *Path) stubByName(name string, fn *ssa.Function, args []Value) (Value, b
 	case "(*regexp.Regexp).ReplaceAllString":
 		pat := (*args[0].(Ptr).p).(*Term).S
 		return p.regexpReplace(pat, args[1].(*Term), args[2].(*Term)), true
+	case "(*regexp.Regexp).MatchString", "(*regexp.Regexp).FindString":
+		pat := (*args[0].(Ptr).p).(*Term).S
+		str := args[1].(*Term)
+		method := strings.TrimPrefix(name, "(*regexp.Regexp).")
+		re, err := regexp.Compile(pat)
+		if err != nil {
+			p.goPanic("regexp: Compile(%q): %v", pat, err)
+		}
+		if str.IsConst() {
+			if method == "MatchString" {
+				return mkBool(re.MatchString(str.S)), true
+			}
+			return mkStr(re.FindString(str.S)), true
+		}
+		uf := registerRxMethod(method, pat, re)
+		if method == "MatchString" {
+			return mkUF(uf, SBool, str), true
+		}
+		return mkUF(uf, SStr, str), true
+	case "regexp.MatchString":
+		p.unsupported("regexp.MatchString")
 	case "sort.Strings":
 		p.sortStrings(args[0].(Slice))
 		return nil, true
@@ -930,6 +951,12 @@ func nativeUF(name string) func(args []string) (string, bool) {
 	if f := floatNativeUF(name); f != nil {
 		return f
 	}
+	if strings.HasPrefix(name, "auto:") {
+		return autoNative(name)
+	}
+	if strings.HasPrefix(name, "rxm:") {
+		return rxMethodNative(name)
+	}
 	return nil
 }
 
@@ -981,4 +1008,43 @@ func groundFactsFor(name string) []*Term {
 	gfMu.Lock()
 	defer gfMu.Unlock()
 	return append([]*Term{}, gfTab[name]...)
+}
+
+// ---- regexp methods with a constant pattern on a symbolic string: congruence-only UFs, real values natively
+
+type rxMethod struct {
+	method string
+	re     *regexp.Regexp
+}
+
+var (
+	rxmMu  sync.Mutex
+	rxmTab = map[string]*rxMethod{}
+)
+
+func registerRxMethod(method, pat string, re *regexp.Regexp) string {
+	name := fmt.Sprintf("rxm:%s:%x", method, pat)
+	rxmMu.Lock()
+	rxmTab[name] = &rxMethod{method: method, re: re}
+	rxmMu.Unlock()
+	return name
+}
+
+func rxMethodNative(name string) func(args []string) (string, bool) {
+	rxmMu.Lock()
+	m := rxmTab[name]
+	rxmMu.Unlock()
+	if m == nil {
+		return nil
+	}
+	return func(a []string) (string, bool) {
+		s, ok := modelStr(a[0])
+		if !ok {
+			return "", false
+		}
+		if m.method == "MatchString" {
+			return strconv.FormatBool(m.re.MatchString(s)), true
+		}
+		return "s:" + m.re.FindString(s), true
+	}
 }
